@@ -291,8 +291,11 @@ class C3:
         self.memo = memo
         kind = self.__class__
 
+        # Read the bases only once: another thread may assign
+        # ``C.__bases__`` while we work.
+        bases = tuple(C.__bases__)
         base_resolvers = []
-        for base in C.__bases__:
+        for base in bases:
             if base not in memo:
                 resolver = kind(base, memo)
                 memo[base] = resolver
@@ -301,17 +304,17 @@ class C3:
         self.base_tree = [
             [C]
         ] + [
-            memo[base].mro() for base in C.__bases__
+            memo[base].mro() for base in bases
         ] + [
-            list(C.__bases__)
+            list(bases)
         ]
 
         self.bases_had_inconsistency = any(
             base.had_inconsistency for base in base_resolvers
         )
 
-        if len(C.__bases__) == 1:
-            self.__mro = [C] + memo[C.__bases__[0]].mro()
+        if len(bases) == 1:
+            self.__mro = [C] + memo[bases[0]].mro()
 
     @property
     def had_inconsistency(self):
